@@ -23,6 +23,7 @@ class Builder(object):
         self.r, self.wild, self.stats = rng, wild, stats
         self.log, self.hits = [], set()
         self.shuffled = False        # some SET OF got its members in another order than the plain twin
+        self.decoded = False         # some part came out of a decoder (DEFAULT members equal to the default come back absent)
 
     def say(self, s):
         if len(self.log) < 200:
@@ -113,6 +114,7 @@ class Builder(object):
             self.shuffled = True          # canonical forms carry SET OF members in sorted order
         self.say('%s: decoded from its %s form (%d octets)' % (path, form, len(e[1])))
         self.stats['built by decoding: ' + form] += 1
+        self.decoded = True
         return d[1]
 
     def build(self, T, v, spec, path='v', top=False):
@@ -338,6 +340,9 @@ def iteration_ok(obj):
         got = list(iter(obj))
         if len(got) != len(want) or any(x is not y for x, y in zip(got, want)):
             return False
+        comps = obj.components          # what == compares (and with it the encoders' DEFAULT test)
+        if len(comps) != len(want) or any(x is not y for x, y in zip(comps, want)):
+            return False
         return all(iteration_ok(c) for c in want)
     if isinstance(obj, univ.SequenceAndSetBase):
         cv = obj._componentValues
@@ -345,6 +350,21 @@ def iteration_ok(obj):
             return True
         return all(iteration_ok(c) for c in cv if c is not univ.noValue)
     return True
+
+
+def pos_snap(obj):
+    """the object position by position (the order in which positions were assigned is not part of it)"""
+    if obj is univ.noValue or obj is None:
+        return 'noValue'
+    if isinstance(obj, univ.SequenceOfAndSetOfBase):
+        cv = obj._componentValues
+        return ('of', type(obj).__name__, 'noValue' if cv is univ.noValue else tuple((k, pos_snap(cv[k])) for k in sorted(cv)))
+    if isinstance(obj, univ.SequenceAndSetBase):
+        cv = obj._componentValues
+        return ('rec', type(obj).__name__, getattr(obj, '_currentIdx', None),
+                'noValue' if cv is univ.noValue else tuple(pos_snap(c) for c in cv))
+    v = obj._value
+    return ('val', type(obj).__name__, 'noValue' if v is univ.noValue else repr(v))
 
 
 def jsonable(x):
@@ -373,8 +393,18 @@ def check_case(ctx, c, wild, exprs, meta):
         ctx.stats['prop_fail:' + (fid or 'unexplained')] += 1
         return
     if not iteration_ok(objB) or not iteration_ok(c.obj):
-        ctx.prop_fail('a SEQUENCE OF / SET OF does not iterate its members by ascending position', m, finding=fid)
+        ctx.prop_fail('a SEQUENCE OF / SET OF does not list its members (iteration, .components) by ascending position', m, finding=fid)
         ctx.stats['prop_fail:' + (fid or 'unexplained')] += 1
+    if pos_snap(c.obj) == pos_snap(objB):
+        ctx.stats['== comparisons between the two objects'] += 1
+        try:
+            eq = (c.obj == objB, objB == c.obj)
+        except Exception as e:  # noqa - == raises on unassigned members and compares REAL through float
+            ctx.stats['== raised %s' % type(e).__name__] += 1
+            eq = None
+        if eq is not None and not (eq[0] and eq[1]):
+            ctx.prop_fail('two objects that are identical position by position do not compare equal', m, finding=fid)
+            ctx.stats['prop_fail:' + (fid or 'unexplained')] += 1
     if not bld.shuffled:
         ba, bb = I.run_encode('BER', c.obj), I.run_encode('BER', objB)
         ctx.stats['BER comparisons'] += 1
@@ -434,6 +464,55 @@ def targeted():
     return out
 
 
+def constructed_default_cases(ctx, n):
+    """SEQUENCE/SET types with DEFAULT components of SEQUENCE OF / SEQUENCE type whose default holds several members,
+    and values equal to the default, absent, or different (the universe generator only puts scalar DEFAULTs)"""
+    r = ctx.rng
+    g = gen.Gen(r, depth=1)
+    rec2 = ('seq', [('req', ('int',)), ('req', ('octs',))])
+    out = []
+    for _ in range(n):
+        elem = r.choice([('int',), ('int',), ('octs',), rec2, ('seqof', ('int',))])
+        ft = r.choice([('seqof', elem), ('seqof', elem), rec2 if elem[0] != 'seqof' else ('seqof', elem)])
+        if ft[0] == 'seqof':
+            items = []
+            while len(items) < r.randint(2, 4):
+                x = g.val(ft[1])
+                if x not in items:
+                    items.append(x)
+            dv = ('list', items)
+        else:
+            dv = g.val(ft)
+        fields = [('req', ('int',)), (('def', dv), ('imp', (128, 0, 1), ft)), ('opt', ('imp', (128, 0, 2), ('octs',)))]
+        if r.random() < 0.4:
+            fields.append((('def', ('i', 5)), ('imp', (128, 0, 3), ('int',))))
+        r.shuffle(fields)
+        T = (r.choice(['seq', 'set']), fields)
+        if r.random() < 0.3:
+            T = ('seqof', T)
+        def value_for(T):
+            if T[0] == 'seqof':
+                return ('list', [value_for(T[1]) for _ in range(r.randint(1, 2))])
+            vs = []
+            for p, f in T[1]:
+                if isinstance(p, tuple) and base_desc(f)[0] in CONSTRUCTED:
+                    q = r.random()
+                    if q < 0.55: vs.append(p[1])                      # equal to the default, assigned explicitly
+                    elif q < 0.75: vs.append(None)
+                    elif p[1][0] == 'list': vs.append(('list', list(reversed(p[1][1]))))   # same members, another order
+                    else: vs.append(g.val(f))
+                elif p == 'opt' and r.random() < 0.5: vs.append(None)
+                elif isinstance(p, tuple) and r.random() < 0.5: vs.append(None)
+                else: vs.append(g.val(f))
+            return ('rec', vs)
+        v = value_for(T)
+        try:
+            out.append(codec.Case(T, v))
+        except Exception:  # noqa
+            ctx.stats['unbuildable'] += 1
+    return out
+
+
 def fixed_orders(ctx):
     """deterministic histories: every position of a SEQUENCE OF / SET OF first assigned in descending order,
     directly and through an element built in place, against the ascending twin"""
@@ -464,7 +543,7 @@ def fixed_orders(ctx):
                 ctx.prop_fail('the construction history did not reach the intended abstract value', m)
                 continue
             if not iteration_ok(obj):
-                ctx.prop_fail('a SEQUENCE OF / SET OF does not iterate its members by ascending position', m)
+                ctx.prop_fail('a SEQUENCE OF / SET OF does not list its members (iteration, .components) by ascending position', m)
             for cdc in ('DER', 'CER', 'BER'):
                 ea, eb = I.run_encode(cdc, c.obj), I.run_encode(cdc, obj)
                 if (ea[0], ea[1]) != (eb[0], eb[1]):
@@ -472,16 +551,43 @@ def fixed_orders(ctx):
                                   dict(m, codec=cdc, bytes_plain=jsonable(ea[1]), bytes_history=jsonable(eb[1])))
 
 
+def fixed_default_orders(ctx):
+    """a DEFAULT SEQUENCE OF component assigned a value equal to its default whose positions were filled in
+    descending order: DER/CER must omit it exactly as for the ascending twin and the absent component"""
+    T = ('seq', [('req', ('int',)), (('def', ('list', [('i', 1), ('i', 2), ('i', 3)])), ('imp', (128, 0, 1), ('seqof', ('int',))))])
+    plain = codec.Case(T, ('rec', [('i', 5), ('list', [('i', 1), ('i', 2), ('i', 3)])]))
+    absent = codec.Case(T, ('rec', [('i', 5), None]))
+    obj = plain.spec.clone()
+    obj['f0'] = 5
+    h = plain.spec.componentType[1].asn1Object.clone()
+    for j in (2, 1, 0):
+        h[j] = j + 1
+    obj['f1'] = h
+    ctx.case(('fixed-default-order', plain.cty), True)
+    ctx.stats['fixed descending-assignment histories'] += 1
+    m = {'T': jsonable(T), 'v': jsonable(plain.v), 'history_B': "f1 = a SEQUENCE OF filled as h[2] = 3; h[1] = 2; h[0] = 1"}
+    if not iteration_ok(obj):
+        ctx.prop_fail('a SEQUENCE OF / SET OF does not list its members (iteration, .components) by ascending position', m)
+    for cdc in ('DER', 'CER', 'BER'):
+        e = [I.run_encode(cdc, x) for x in (plain.obj, obj, absent.obj)]
+        if len(set((x[0], x[1]) for x in e)) != 1:
+            ctx.prop_fail('%s bytes differ between two objects with the same abstract value' % cdc,
+                          dict(m, codec=cdc, bytes_plain=jsonable(e[0][1]), bytes_history=jsonable(e[1][1]), bytes_default_left_out=jsonable(e[2][1])))
+
+
 def run(ctx):
-    ctx.rule = ('random (type, value) of the universe (depth<=3) plus targeted SET/SET OF/DEFAULT cases; per case one plain object and one '
+    ctx.rule = ('random (type, value) of the universe (depth<=3) plus targeted SET/SET OF/DEFAULT cases and SEQUENCE/SET types with DEFAULT components of SEQUENCE OF / SEQUENCE type (multi-member defaults; values equal to the default, absent, reordered, different); per case one plain object and one '
                 'built by a random construction history (random assignment order by name/position/tag, SET OF members shuffled, DEFAULT '
                 'explicit or left out, SEQUENCE OF/SET OF positions assigned in a random order by s[i]= / setComponentByPosition after an appended prefix, record members built in place through s[i][name]=, parts decoded from indefinite/chunked BER or CER/DER forms, clone(cloneValueFlag=True), interleaved '
                 'encode/print/iterate/len/compare/getComponentBy*(instantiate=False and True) reads); every 5th history may also enter the '
                 'classes of the open findings F18a/F18d/F18j; compared: DER and CER of both, a second encode, re-encoding of the decoded DER/CER; '
                 'non-trivial = constructed type with at least 2 recorded history steps')
-    cases = targeted() + codec.gen_cases(ctx, ctx.n(150, 2500), depth=3)
+    dcases = constructed_default_cases(ctx, ctx.n(40, 400))
+    ctx.stats['cases with a DEFAULT component of constructed type'] = len(dcases)
+    cases = targeted() + dcases + codec.gen_cases(ctx, ctx.n(150, 2500), depth=3)
     exprs, meta = [], []
     fixed_orders(ctx)
+    fixed_default_orders(ctx)
     for n, c in enumerate(cases):
         for rep in range(2 if base_desc(c.T)[0] in CONSTRUCTED else 1):
             check_case(ctx, c, wild=(n % 5 == 4 and rep == 1), exprs=exprs, meta=meta)
